@@ -271,6 +271,12 @@ func (vm *VM) callNative(fn *NativeFunction, numVariadic int8, shift StackShift,
 	// Make a copy of the frame pointer.
 	fp := vm.fp
 
+	// Restore the frame pointer also if the function panics: convertPanic
+	// reads the registers of the calling function.
+	defer func() {
+		vm.fp = fp
+	}()
+
 	// Shift the frame pointer.
 	vm.fp[0] += Addr(shift[0])
 	vm.fp[1] += Addr(shift[1])
